@@ -894,7 +894,7 @@ theorem C18_electrum_prv_reserialises (env : Env) (laws : CodecLaws env) (ke : K
 
 /-- ★ Electrum public form (`E:` + 128 hex digits): 64 bytes `x ‖ y`, both coordinates below `p`, the point on the curve;
 the wallet is an uncompressed public key whose `as_text()` parses back through `parse.sec` to the same pair and flag.
-(Before fix fdc63ef `x + p` was accepted for small `x` and the text did not parse back: corpus.) -/
+(Before fix b1857b7 `x + p` was accepted for small `x` and the text did not parse back: corpus.) -/
 theorem C18_electrum_pub_reserialises (env : Env) (ke : KeyEnv) (kl : KeyLaws ke) (net : Network) (hn : net ∈ all)
     (s : String) (o : Obj) (h : parseElectrumPub ke s = .ok (some o)) :
     ∃ blob k t, electrumBlob s = some blob ∧ blob.length = 64 ∧ o = .electrum k ∧ k.se = none ∧ k.compressed = false ∧
